@@ -1,15 +1,23 @@
 """treedump.py — dumps a real MontePy syntax tree into the prefix notation read by
-coq/Model/Tree.v (run_Tree).  The walker decides, per node class, which generic model node
-it is (table in DESIGN.md §14.3):
+coq/Model/Tree.v (run_Tree).  The walker decides, per node class, which model node it is:
 
-  ValueNode      -> V tok pad never_pad has_value edit   (edit = the leaf's own format() when its
-                                                           value changed: the rendering is Num's business)
-  PaddingNode    -> P text            CommentNode lives inside padding text
-  ShortcutNode, ParticleNode, anything unknown -> O formatted-text (opaque leaf)
+  ValueNode      -> V tok pad never_pad has_value edit vlen
+                    pad   = N (no PaddingNode) | comma separated pieces s<hex> (str) / c<hex> (CommentNode), '-' = empty
+                    edit  = E<hex of the rendering of the new value WITHOUT padding> when the value changed
+                            (how a number is spelled is Model/Num.v's business, property C05), '-' otherwise
+                    vlen  = the formatter's value_length once it was reverse engineered (or for a node
+                            without a token: it never is), N otherwise
+  PaddingNode    -> P pieces
+  ShortcutNode   -> K hex(formatted text)          (opaque; the model only knows ListNode's blank after it)
+  ParticleNode   -> T upper order particles        (hex, comma separated; particles sorted like the source does)
   SyntaxNode     -> S children (dict order)        ListNode -> L children
   GeometryTree, ClassifierNode (fields in format order, present iff truthy), ParametersNode,
   IsotopesNode (pairs flattened) -> C children
+  anything else  -> O hex(formatted text)
 """
+import copy
+import warnings
+
 from montepy.input_parser import syntax_node as sn
 
 
@@ -17,25 +25,56 @@ def hx(s):
     return s.encode("latin-1", "replace").hex() if s else "-"
 
 
+def pieces(pad):
+    out = []
+    for n in pad.nodes:
+        if isinstance(n, str):
+            out.append("s" + n.encode("latin-1", "replace").hex())
+        else:
+            out.append("c" + n.format().encode("latin-1", "replace").hex())
+    return ",".join(out) if out else "-"
+
+
+def new_value_text(node):
+    """the rendering of a changed value without the field logic: a clone without padding and field width"""
+    c = copy.copy(node)
+    c._formatter = dict(node._formatter)
+    c._padding = None
+    c._nodes = [c]
+    with warnings.catch_warnings():
+        warnings.simplefilter("ignore")
+        if c._token is not None and not c._is_reversed:
+            c._reverse_engineer_formatting()
+        c._formatter["value_length"] = 0
+        return c.format()
+
+
 def dump(node, out=None, leading=None):
     out = [] if out is None else out
     if isinstance(node, sn.ValueNode):
-        tok = node._token if node._token is not None else ""
+        # (a node without token only prints when its value changed; unchanged it is skipped by SyntaxNode.format)
+        tok = f"{node._token}" if node._token is not None else ""
         pad = node.padding
-        padw = "N" if pad is None else hx(pad.format())
+        padw = "N" if pad is None else pieces(pad)
         changed = bool(node._value_changed)
-        ed = ("E" + (node.format().encode("latin-1", "replace").hex())) if changed else "-"
-        out += ["V", hx(str(tok)), padw, "1" if node.never_pad else "0",
-                "1" if node.value is not None else "0", ed]
-    elif isinstance(node, sn.PaddingNode):
-        out += ["P", hx(node.format())]
-    elif isinstance(node, sn.ShortcutNode):
-        if leading is not None:
-            out += ["O", hx(node.format(leading))]
+        ed = ("E" + new_value_text(node).encode("latin-1", "replace").hex()) if changed else "-"
+        if node._token is None or node._is_reversed:
+            vl = str(int(node._formatter["value_length"]))
         else:
-            out += ["O", hx(node.format())]
+            vl = "N"
+        out += ["V", hx(tok), padw, "1" if node.never_pad else "0",
+                "1" if node.value is not None else "0", ed, vl]
+    elif isinstance(node, sn.PaddingNode):
+        out += ["P", pieces(node)]
+    elif isinstance(node, sn.ShortcutNode):
+        with warnings.catch_warnings():
+            warnings.simplefilter("ignore")
+            out += ["K", hx(node.format(leading) if leading is not None else node.format())]
     elif isinstance(node, sn.ParticleNode):
-        out += ["O", hx(node.format())]
+        node._reverse_engineer_format()
+        order = ",".join(p.value.encode("latin-1").hex() for p in node._order) or "-"
+        parts = ",".join(p.value.encode("latin-1").hex() for p in sorted(node.particles)) or "-"
+        out += ["T", "1" if node._formatter["upper"] else "0", order, parts]
     elif isinstance(node, sn.ListNode):
         out += ["L", str(len(node.nodes))]
         last = None
@@ -81,7 +120,7 @@ def dump(node, out=None, leading=None):
         for c in ch:
             dump(c, out)
     elif isinstance(node, str):
-        out += ["P", hx(node)]
+        out += ["P", "s" + node.encode("latin-1", "replace").hex() if node else "-"]
     else:
         out += ["O", hx(node.format())]
     return out
@@ -91,9 +130,49 @@ def request(cmd, node):
     return cmd + " " + " ".join(dump(node))
 
 
+def cell_request(cell, version):
+    """the parts of a cell for the model's parameter loop (Cell.format_for_mcnp_input), and the text the real
+    method hands to the line wrapper.  -> (request, real_text)"""
+    import montepy
+    with warnings.catch_warnings():
+        warnings.simplefilter("ignore")
+        cell.validate()
+        cell._update_values()
+        modifier_keywords = {cls._class_prefix(): cls for cls in cell._INPUTS_TO_PROPERTY.keys()}
+        words = ["cell"]
+        for key, node in cell._tree.nodes.items():
+            if key != "parameters":
+                words += ["N"] + dump(node)
+                continue
+            printed_importance = False
+            for param in node.nodes.values():
+                prefix = param["classifier"].prefix.value.lower()
+                if prefix in modifier_keywords:
+                    attr, _ = cell._INPUTS_TO_PROPERTY[modifier_keywords[prefix]]
+                    if attr == "_importance":
+                        if printed_importance:
+                            continue
+                        printed_importance = True
+                    words += ["M", hx(getattr(cell, attr)._format_as_text(version))]
+                else:
+                    words += ["R"] + dump(param)
+        captured = []
+        orig = montepy.mcnp_object.MCNP_Object.wrap_string_for_mcnp
+
+        def capture(string, mcnp_version, is_first_line):
+            captured.append(string)
+            return orig(string, mcnp_version, is_first_line)
+        montepy.mcnp_object.MCNP_Object.wrap_string_for_mcnp = staticmethod(capture)
+        try:
+            cell.format_for_mcnp_input(version)
+        finally:
+            montepy.mcnp_object.MCNP_Object.wrap_string_for_mcnp = staticmethod(orig)
+    return " ".join(words), (captured[-1] if captured else None)
+
+
 def stats(words):
     d = {}
     for w in words:
-        if w in ("V", "P", "O", "S", "L", "C"):
+        if w in ("V", "P", "O", "K", "T", "S", "L", "C"):
             d[w] = d.get(w, 0) + 1
     return d
